@@ -8,15 +8,15 @@ EXTENDS WSFrame, TLC, Json, IOUtils
 
 Log == ndJsonDeserialize(IOEnv.TRACE_FILE)
 
-VARIABLES i, role, flate, ws, keys, pings, pongs, bad, skip
-vars == <<i, role, flate, ws, keys, pings, pongs, bad, skip>>
+VARIABLES i, role, flate, ws, keys, pings, pongs, seen, dups, bad, skip
+vars == <<i, role, flate, ws, keys, pings, pongs, seen, dups, bad, skip>>
 
-Init == i = 1 /\ role = "server" /\ flate = FALSE /\ ws = W0 /\ keys = <<>> /\ pings = <<>> /\ pongs = 0
+Init == i = 1 /\ role = "server" /\ flate = FALSE /\ ws = W0 /\ keys = <<>> /\ pings = <<>> /\ pongs = 0 /\ seen = {} /\ dups = {}
         /\ bad = {} /\ skip = FALSE /\ TLCSet(1, 1) /\ TLCSet(2, 0)
 
 e == Log[i]
 
-Fail(why) == /\ bad' = bad \cup {why} /\ skip' = TRUE /\ TLCSet(2, TLCGet(2) + 1) /\ PrintT(<<"REJECTED", i, why, e>>) /\ UNCHANGED <<role, flate, ws, keys, pings, pongs>>
+Fail(why) == /\ bad' = bad \cup {why} /\ skip' = TRUE /\ TLCSet(2, TLCGet(2) + 1) /\ PrintT(<<"REJECTED", i, why, e>>) /\ UNCHANGED <<role, flate, ws, keys, pings, pongs, seen, dups>>
 
 (* R8: among any four consecutive masked frames of a connection at least two keys differ *)
 KeysOK(ks) == Len(ks) < 4 \/ \E a, b \in 1..4 : ks[a] # ks[b]
@@ -33,19 +33,25 @@ FrameStep ==
            ks == IF h.masked THEN SuffixCap(4, Append(keys, h.key)) ELSE keys
        IN IF ~r.ok THEN Fail(r.why)
           ELSE IF ~KeysOK(ks) THEN Fail("mask-key-not-refreshed")
+          \* R8, second half: keys are fresh random values.  One chance repeat per connection is tolerated (p ~ n^2/2^33);
+          \* a key seen three times, or two different keys each repeated, is not chance (p < 2^-40) but a recycled key source
+          ELSE IF h.masked /\ h.key \in dups THEN Fail("mask-key-reused")
+          ELSE IF h.masked /\ h.key \in seen /\ dups # {} THEN Fail("mask-key-reused")
           ELSE IF h.op = OpPong /\ (pongs >= Len(pings) \/ pings[pongs + 1] # e.pl) THEN Fail("pong-does-not-echo-next-ping")
           ELSE /\ ws' = r.st /\ keys' = ks
                /\ pongs' = IF h.op = OpPong THEN pongs + 1 ELSE pongs
+               /\ seen' = IF h.masked THEN seen \cup {h.key} ELSE seen
+               /\ dups' = IF h.masked /\ h.key \in seen THEN dups \cup {h.key} ELSE dups
                /\ UNCHANGED <<role, flate, pings, bad, skip>>
 
 Step ==
   /\ i <= Len(Log) /\ i' = i + 1
-  /\ CASE skip /\ e.ev # "WireReset" -> UNCHANGED <<role, flate, ws, keys, pings, pongs, bad, skip>>
+  /\ CASE skip /\ e.ev # "WireReset" -> UNCHANGED <<role, flate, ws, keys, pings, pongs, seen, dups, bad, skip>>
        [] e.ev = "WireReset" -> /\ role' = e.role /\ flate' = e.flate /\ ws' = W0 /\ keys' = <<>>
-                                /\ pings' = <<>> /\ pongs' = 0 /\ skip' = FALSE /\ UNCHANGED bad
-       [] e.ev = "SentPing"  -> pings' = Append(pings, e.pl) /\ UNCHANGED <<role, flate, ws, keys, pongs, bad, skip>>
+                                /\ pings' = <<>> /\ pongs' = 0 /\ seen' = {} /\ dups' = {} /\ skip' = FALSE /\ UNCHANGED bad
+       [] e.ev = "SentPing"  -> pings' = Append(pings, e.pl) /\ UNCHANGED <<role, flate, ws, keys, pongs, seen, dups, bad, skip>>
        [] e.ev = "Frame"     -> FrameStep
-       [] OTHER              -> UNCHANGED <<role, flate, ws, keys, pings, pongs, bad, skip>>
+       [] OTHER              -> UNCHANGED <<role, flate, ws, keys, pings, pongs, seen, dups, bad, skip>>
 Next == Step
 HW == TLCSet(1, IF TLCGet(1) < i THEN i ELSE TLCGet(1))
 (* a rejection is reported with the index and content of the offending line *)
